@@ -55,6 +55,13 @@ def coefVec (B : Basis K d) (rho : Mat K d d) : Vec K (d * d) :=
 def densityOfCoef (B : Basis K d) (v : Vec K (d * d)) : Mat K d d :=
   msum (d * d) fun a => (B.get a).smul (v.get a)
 
+/-- POVM elements from pure-state vectors (`generate_povm_matrices_from_name` for rank-1 names): `M_x = |v_x⟩⟨v_x|` -/
+def povmOfVectors (vs : List (Vec K d)) : List (Mat K d d) := vs.map pureDensity
+
+/-- HS matrix of the effective Lindbladian of a Hamiltonian (`calc_effective_lindbladian_mat_hermitian_basis_from_hamiltonian`):
+`convert_hs(−i(H ⊗ 1 − 1 ⊗ H̄), comp_basis, basis)` -/
+def lindOfHamiltonian (B : Basis K d) (h : Mat K d d) : Mat K (d * d) (d * d) := toHerm B (cbFromH h)
+
 /-- `tmp_hs += np.kron(kraus_matrix, kraus_matrix.conjugate())` over the Kraus operators of one outcome -/
 def krausSum (ks : List (Mat K d d)) : Mat K (d * d) (d * d) :=
   ks.foldl (fun acc k => acc.add (kron k (conjM k))) Mat.zero
@@ -141,6 +148,22 @@ def handle (args : List String) : Option String :=
       let rho := pureDensity psi
       let v := coefVec B rho
       some s!"ok {showCMat rho} {showList showRat (v.toList.flatMap fun z => [z.re, z.im])} {showCMat (densityOfCoef B v)}"
+  | ["povmforms", ds, bs, k, vs] => do
+      -- pure-state vectors -> POVM matrices -> coefficient vectors
+      let d ← parseNat? ds
+      let k ← parseNat? k
+      let B ← parseBasis bs d
+      let l ← parseList? parseRat? vs
+      let c ← pairUp l
+      if c.length ≠ k * d then none
+      let vs ← (chunks d k c).mapM fun r => listToVec? r d
+      let ms := povmOfVectors vs
+      some ("ok " ++ " ".intercalate (ms.map fun m => showCMat m ++ " " ++ showList showRat ((coefVec B m).toList.flatMap fun z => [z.re, z.im])))
+  | ["lindofh", ds, bs, h] => do
+      let d ← parseNat? ds
+      let B ← parseBasis bs d
+      let h ← parseCMat h d d
+      some s!"ok {showCMat (lindOfHamiltonian B h)}"
   | ["hsofkraus", ds, bs, ks] => do
       let d ← parseNat? ds
       let B ← parseBasis bs d
